@@ -107,12 +107,21 @@ func Run(out *cq.Out, seed uint64, tier, backend string, open Opener, reopen fun
 			switch r := rng.Intn(20); {
 			case r < 6 || k < 3: // Mutate
 				nb := 1 + rng.Intn(5)
+				if rng.Intn(4) == 0 { // a large batch; the same key written several times in it (the last write must win)
+					nb = 13 + rng.Intn(40)
+					out.Count("large_batches", 1)
+				}
 				var muts []*storage.Mutation
 				var ml []string
 				for j := 0; j < nb; j++ {
 					tt := Tables[rng.Intn(len(Tables))]
 					key := genKey(rng, pool)
-					val := rng.Bytes(rng.Intn(3))
+					if len(muts) > 0 && rng.Intn(3) == 0 {
+						prev := muts[rng.Intn(len(muts))]
+						tt, key = prev.Table, prev.Key
+						out.Count("duplicate_key_in_batch", 1)
+					}
+					val := rng.Bytes(1 + rng.Intn(2))
 					pool = append(pool, key)
 					muts = append(muts, storage.NewMutation(tt, key, val))
 					or[tt][string(key)] = val
